@@ -25,7 +25,10 @@ RULE = ("documents: jsongen valid texts, byte-mutated texts, texts padded to 409
         "{EIO, EINTR, one of EAGAIN/EBADF/ENOSPC/EPIPE/EDQUOT/EFBIG/ENOMEM/untouched} and at random positions otherwise; open() failing with ENOENT/EACCES/EINTR/EMFILE/EISDIR; "
         "file-system histories (1-5 steps of to_file_ext / to_file / from_file over paths a,b,c): fresh path, existing longer (+1,+2,+17,+300) / "
         "equal / shorter file, second write shrinking and growing, read back, absent path, other files untouched; "
-        "non-trivial = at least two data-carrying calls or an injected error reached or a successful file write; distinct by script line")
+        "failure reports (N): from_file / to_file_ext / to_file on file names with printf metacharacters (%d %s %n %x %% lone % %5$s %*d ...), "
+        "names of 150..5000 bytes around the 256-byte message buffer, plain names x open() failing (ENOENT EACCES ENOTDIR EMFILE ENAMETOOLONG ...) "
+        "or the first read()/write() failing; "
+        "non-trivial = at least two data-carrying calls or an injected error reached or a successful file write or a failure report; distinct by script line")
 TRUSTED = ["Coq 8.16.1 kernel (coqc), no axioms (Print Assumptions: closed under the global context)",
            "extraction (ExtrOcamlBasic only) + ocaml/drv_fd.ml glue (pads the schedule with whole-request entries)",
            "harness/drv_fd.c (scripted read/write/open/close stubs, an in-memory file system whose open() honours O_CREAT/O_EXCL/O_TRUNC/O_APPEND/access mode, recording wrapper around json_tokener_parse_ex), jvtext.h, xalloc.c; gcc -fsanitize=address,undefined",
@@ -318,6 +321,42 @@ def gen(rng, tier):
                 which = "w" if fl == 0 and rng.random() < 0.5 else "W"
                 out.append(("fd F %s %s %s %d %s %s" % (which, ok, t, fl, sc, ser), {"kind": "FW-" + ("open" if ok == "1" else "noopen") + "/" + sk}))
     out += gen_histories(rng, tier, [(t, fl, sers[(t, fl)]) for (t, fl, _) in trees if (t, fl) in sers])
+    out += gen_names(rng, tier)
+    return out
+
+
+PRINTF_NAMES = [b"plain.json", b"/no/such/dir/file.json", b"relative/missing dir/with space.json", b"caf\xc3\xa9.json", b"x",
+                b"%d", b"%s", b"%n", b"%x", b"%%", b"100%", b"a%", b"%", b"%5$s", b"%1$n", b"%s%s%s%s%s%s%s%s", b"%n%n%n%n",
+                b"%d%d%d%d%d%d%d%d%d%d%d%d", b"%.100000d", b"%*d", b"%*.*f", b"%c", b"%p", b"%ls", b"%hhn", b"%lln", b"%m",
+                b"%9999999999d", b"%-08.3lf", b"%Lf", b"%a", b"/tmp/%s/%d.json", b"dir%2Fname%20.json", b"50%off.json",
+                b"%\xff", b"%s\n%s", b"{}", b"{0}", b"\\n%s"]
+OPEN_ERRNOS = ["ENOENT", "EACCES", "ENOTDIR", "EMFILE", "ENAMETOOLONG", "EROFS", "ELOOP", "EINTR", "ENOMEM"]
+
+
+def gen_names(rng, tier):
+    """what the failure report SAYS, for arbitrary file names: printf metacharacters in every
+    position, names around the size of the 256-byte message buffer, plain names; open() failing
+    with several errnos, and the first read()/write() failing after a successful open"""
+    out = []
+    names = list(PRINTF_NAMES)
+    unit = b"abcdefghij"
+    for ln in (150, 190, 200, 205, 209, 210, 211, 212, 213, 214, 215, 216, 220, 230, 254, 255, 256, 257, 300, 1000, 5000):
+        names.append((unit * (ln // 10 + 1))[:ln])
+        names.append(((unit * (ln // 10 + 1))[:ln - 2] + b"%s") if ln % 3 == 0 else ((b"%d" + unit * (ln // 10 + 1))[:ln]))
+    for _ in range(60 if tier == "quick" else 1500):
+        parts = []
+        for _ in range(rng.randint(1, 6)):
+            parts.append(rng.choice([b"%", b"%%", b"%s", b"%d", b"%n", b"%x", b"%5$s", b"%.3s", b"%ld", b"/", b".", b"file", b"dir", b" ", b"json",
+                                     bytes([rng.choice(list(range(1, 37)) + list(range(38, 256)))]), unit * rng.randint(1, 30)]))
+        names.append(b"".join(parts))
+    for i, nm in enumerate(names):
+        fixed = i < len(PRINTF_NAMES)
+        for kind in "rwv":
+            for what in "ox":
+                errs = (["ENOENT", "EACCES"] if fixed else [rng.choice(OPEN_ERRNOS)]) if what == "o" else \
+                       [rng.choice(ERRNOS_R[:5] if kind == "r" else ERRNOS_W[:7])]
+                for e in errs:
+                    out.append(("fd N %s %s %s %s" % (kind, what, e, hx(nm)), {"kind": "N-" + ("printf" if b"%" in nm else "plain") + ("-long" if len(nm) > 150 else "") + "/" + what}))
     return out
 
 
@@ -571,8 +610,42 @@ def o_history(t, impl):
     return None
 
 
+def o_names(t, o):
+    """the failure report for an arbitrary file name: a clean failure (no crash: checked by the
+    caller), a retrievable NUL-terminated message naming the file verbatim and carrying the errno text"""
+    kind, what, errname, name = t[2], t[3], t[4], unhx(t[5])
+    if len(o) != 10 or o[0] != "N":
+        return ("malformed", "unexpected driver output: " + " ".join(o)[:120])
+    ret, msg, term, has_name, has_serr, closes, leak = o[1], o[2], o[3], o[4], o[5], int(o[8]), int(o[9])
+    show = repr(name[:40]) + ("..." if len(name) > 40 else "")
+    why = "open() failed" if what == "o" else ("read() failed" if kind == "r" else "write() failed")
+    if ret != ("NULL" if kind == "r" else "-1"):
+        return ("open-failure-unreported" if what == "o" else ("read-error-unreported" if kind == "r" else "write-error-unreported"),
+                "%s (%s) for file name %s but the call returned %s" % (why, errname, show, ret))
+    if msg != "1":
+        return ("failure-without-message", "%s for file name %s: json_util_get_last_err() is NULL" % (why, show))
+    if term != "1":
+        return ("message-not-terminated", "%s for file name %s (%d bytes): the last-error buffer has no NUL" % (why, show, len(name)))
+    if has_name == "0":
+        return ("message-lacks-file-name", "%s (%s): the message does not contain the file name %s verbatim (nor ends in a prefix of it)"
+                % (why, errname, show))
+    if has_serr != "1":
+        return ("message-lacks-errno-text", "%s for file name %s: the message does not contain strerror(%s)" % (why, show, errname))
+    if closes != (0 if what == "o" else 1):
+        return ("fd-leak", "%s: close() called %d times" % (why, closes))
+    if leak != 0:
+        return ("leak", "%d allocation(s) still live after the failed call" % leak)
+    return None
+
+
 def oracle(line, meta, impl):
+    if impl == "MISSING":
+        return None     # never run (the driver was restarted too often after crashes): the correspondence flags it
     if "CRASH" in impl:
+        if line.startswith("fd N "):
+            f = line.split(" ")
+            return ("crash-in-failure-report", "reporting a failed %s (%s) for file name %r crashed: %s"
+                    % ("open()" if f[3] == "o" else "read()/write()", f[4], unhx(f[5])[:40], impl[:80]))
         return ("crash", "implementation crashed: " + impl[:100])
     t = line.split(" ")
     o = impl.split(" ")
@@ -591,6 +664,8 @@ def oracle(line, meta, impl):
             return o_write(t[4], sched_parse(t[6]), o, True, t[3] == "1")
         if t[1] == "P":
             return o_history(t, impl)
+        if t[1] == "N":
+            return o_names(t, o)
         if t[1] == "S":
             return None
     except (ValueError, IndexError) as e:
@@ -612,6 +687,8 @@ def nontrivial(line, meta, impl):
         if o[0] in ("w", "r") and " | " in impl:
             if any(x.startswith("w 0 ") for x in impl.split(" | ")) or impl.count(" | ") >= 2:
                 return line
+        if o[0] == "N" and o[2] == "1":
+            return line
         if o[0] in ("R", "FR"):
             if int(o[3]) >= 3 or (o[1] == "NULL" and o[4] == "0" and int(o[3]) >= 1):
                 return line
@@ -628,6 +705,11 @@ def shrink(ck, line, cls):
         m, c, _ = ck.run_pair([l], "shrink")
         v = oracle(l, {}, c.get(1, "MISSING"))
         return v is not None and v[0] == cls
+    if t[1] == "N":
+        name = list(unhx(t[5]))
+        if len(name) >= 2:
+            name = fw.ddmin(name, lambda sub: fails(" ".join(t[:5] + [hx(bytes(sub))])), budget=20)
+        return " ".join(t[:5] + [hx(bytes(name))])
     if t[1] == "P":
         steps = t[3].split(";")
         if len(steps) >= 2:
@@ -667,5 +749,7 @@ LEVEL_TEXT = ("Machine-checked (Coq, induction on transfer schedules, no axioms,
               "on every run by differential execution against the sanitizer build with interposed read/write/open/close.")
 LEVEL_NOTE = ("Trusted: Coq kernel; extraction + OCaml glue; the scripted stubs; the theorems are about the Gallina model, tied to the C code only by "
               "the sampled correspondence. The serializer, the tokener and the print buffer are arguments/oracles of this model (C02, C01, C19). "
+              "What a failure message SAYS (NUL-terminated inside its buffer, names the file verbatim or ends in a prefix of it, carries the strerror text) "
+              "is an oracle-only observation on the C side, printed as three booleans, never as text: the model only states THAT a message is set and which one. "
               "json_object_to_fd(NULL object) is a refused call (-1 with message), and a successfully parsed top-level 'null' is returned as NULL "
               "with a message set: both are modelled as written. Allocation failure is not exercised here (C08).")
